@@ -182,12 +182,14 @@ def history(profile, max_ops=30, min_ops=1):
 
 
 @st.composite
-def bulk_history(draw):
+def bulk_history(draw, max_points=25):
     """A larger data set loaded at once (in-order, shuffled, duplicates), optionally thinned by a removal, then many probes."""
-    pts = draw(st.lists(gen.points(), min_size=0, max_size=25))
+    pts = draw(st.lists(gen.points(), min_size=0 if max_points <= 25 else max_points // 3, max_size=max_points))
     ops = [["insert_multiple", pts, draw(st.integers(0, 3)), draw(st.sampled_from(["inorder", "asis"])), "db", None, "m1"]]
     if draw(st.booleans()):
-        ops.append(draw(op_remove()))
+        ops.append(draw(st.one_of(op_remove(), op_remove_hit())))
+    if max_points > 25 and draw(st.booleans()):
+        ops.append(draw(st.one_of(op_update_hit(), op_remove_hit())))
     if draw(st.integers(0, 3)) == 0:
         ops.append(draw(op_insert()))
     n = draw(st.integers(6, 14))
